@@ -148,7 +148,14 @@ fn parse_via(rest: &str, entry: u8) -> String {
 pub fn asm(rest: &str) -> String {
     match read_inst(rest.trim()) {
         Some(i) => {
-            let ws: Vec<String> = i.assemble().iter().map(|w| w.to_string()).collect();
+            // both entry points of `Assemble`: `assemble()` and `assemble_into(&mut Vec)` (appending after existing content)
+            let a = i.assemble();
+            let mut b = vec![0xdead_beef_u32];
+            i.assemble_into(&mut b);
+            if b[0] != 0xdead_beef || b[1..] != a[..] {
+                return format!("entry-points-differ assemble={:?} assemble_into={:?}", a, &b[1..]);
+            }
+            let ws: Vec<String> = a.iter().map(|w| w.to_string()).collect();
             format!("ok {}", ws.join(","))
         }
         None => "bad-request".to_string(),
